@@ -89,6 +89,8 @@ class TArr(Sym):
             return self.arr.ndim
         if name == 'dtype':
             return self.dtype
+        if name == '__class__':
+            return ClassRef(self.clsnames[0])
         raise Unsupported('attribute %s of a tensor model' % name)
 
     def isinstance_(self, ctx, types):
@@ -149,6 +151,7 @@ class TArr(Sym):
 
 class Target:
     """The derivative target `var` (an Argument): identity object with shape/ndim/dtype."""
+    sym_classes = ('Argument', 'DerivativeTargetBase', 'Array')
 
     def __init__(self, shape, dtype=FLOAT, name='v'):
         self.shape, self.dtype, self.name = tuple(shape), dtype, name
@@ -442,6 +445,45 @@ def m_inverse(ctx, arg, axes=(-2, -1)):
     return TArr(_inv(_arr(arg)), arg.dtype)
 
 
+def m_appendaxes(ctx, func, shape):
+    a = _arr(func)
+    for n in shape:
+        a = numpy.repeat(a[..., None], int(n), axis=-1)
+    return TArr(a, func.dtype if isinstance(func, TArr) else INT)
+
+
+def m_Choose(ctx, index, choices):
+    idx, ch = _arr(index), _arr(choices)
+    if ch.shape[:-1] != idx.shape:
+        raise PyRaise('AssertionError', note='Choose: index shape %s vs choices shape %s' % (idx.shape, ch.shape))
+    out = numpy.empty(idx.shape, dtype=object)
+    for pos in itertools.product(*map(range, idx.shape)):
+        out[pos] = ch[pos + (int(idx[pos]),)]
+    return TArr(out, choices.dtype)
+
+
+class TransposeClass:
+    """evaluable.Transpose as far as the rules use it: to_end / from_end."""
+    __name__ = 'Transpose'
+
+    def sym_getattr(self, ctx, name):
+        if name == 'to_end':
+            def to_end(ctx, array, *axes):
+                a = _arr(array)
+                axes = [_normaxis(x, a.ndim) for x in axes]
+                order = [i for i in range(a.ndim) if i not in axes] + axes
+                return TArr(numpy.transpose(a, order), array.dtype)
+            return to_end
+        if name == 'from_end':
+            def from_end(ctx, array, *axes):
+                a = _arr(array)
+                axes = [_normaxis(x, a.ndim) for x in axes]
+                order = [i for i in range(a.ndim) if i not in axes] + axes
+                return TArr(numpy.transpose(a, numpy.argsort(order)), array.dtype)
+            return from_end
+        raise Unsupported('Transpose.' + name)
+
+
 def m_derivative(ctx, func, var, seen=None):
     if not isinstance(func, TArr) or func.jac is None:
         raise Unsupported('derivative() of something that is not a child of the node under contract')
@@ -478,7 +520,8 @@ class NumpyLite:
 GLOBALS = dict(einsum=m_einsum, insertaxis=m_insertaxis, transpose=m_transpose, sum=m_sum, takediag=m_takediag, _take=m_take,
                _inflate=m_inflate, diagonalize=m_diagonalize, ravel=m_ravel, unravel=m_unravel, Zeros=m_zeros, zeros=m_zeros, ones=m_ones,
                astype=m_astype, power=m_power, ln=m_ln, add=m_add, Product=m_Product, Diagonalize=m_Diagonalize, inverse=m_inverse,
-               derivative=m_derivative, util=Util(), numpy=NumpyLite(), Constant=ClassRef('Constant'), Argument=ClassRef('Argument'),
+               derivative=m_derivative, appendaxes=m_appendaxes, Choose=m_Choose, Transpose=TransposeClass(), Guard=lambda ctx, x: x,
+               _any_certainly_different=lambda ctx, a, b: tuple(int(x) for x in a) != tuple(int(x) for x in b), util=Util(), numpy=NumpyLite(), Constant=ClassRef('Constant'), Argument=ClassRef('Argument'),
                isunit=lambda ctx, n: int(n) == 1)
 
 
@@ -506,8 +549,10 @@ def true_jacobian(value, children, vshape):
 
 
 class Scenario:
-    def __init__(self, cls, label, build, doc=''):
+    def __init__(self, cls, label, build, doc='', fn=None, expect_raise=None):
         self.cls, self.label, self.build, self.doc = cls, label, build, doc
+        self.fn = fn or 'evaluable:%s._derivative' % cls
+        self.expect_raise = expect_raise  # exception the rule must raise in this scenario (no value may be returned)
 
 
 def node(value, dtype=FLOAT, clsname='Array', **extras):
@@ -656,6 +701,90 @@ def scenarios():
         return nd, [], B
     add('IntToFloat', 'A2_B2', intofloat)
     add('Sign', 'A2_B2', intofloat)
+
+    # ---- derivative targets and defaults
+    def ident(shape):
+        e = zobj(tuple(shape) + tuple(shape))
+        for idx in itertools.product(*map(range, shape)):
+            e[idx + idx] = sympy.Integer(1)
+        return e
+
+    for shp in [(), (2,), (2, 3)]:
+        tag = 'shape' + ('x'.join(map(str, shp)) or '0')
+
+        def arg_same(shp=shp):
+            nd = node(symarr('a', shp), clsname='Argument', name='a')
+            nd.var = Target(shp, FLOAT, 'a')  # the same argument
+            nd.true_override = ident(shp)
+            return nd, [], shp
+        add('Argument', tag + ',same-name', arg_same)
+
+        def arg_other(shp=shp):
+            nd = node(symarr('a', shp), clsname='Argument', name='a')
+            nd.var = Target((3,), FLOAT, 'b')
+            nd.true_override = zobj(tuple(shp) + (3,))
+            return nd, [], (3,)
+        add('Argument', tag + ',other-name', arg_other)
+
+    def arg_int(shp=(2,)):
+        nd = node(symarr('a', shp), dtype=INT, clsname='Argument', name='a')
+        nd.var = Target(shp, INT, 'a')
+        nd.true_override = zobj(tuple(shp) + tuple(shp))  # integer arguments have an identically zero derivative (property C04, last sentence)
+        return nd, [], shp
+    add('Argument', 'integer-argument', arg_int)
+
+    def withder_same(A=(2,), B=(3,)):
+        f = child('f', A, B)
+        own = Target(B, FLOAT, 'own')
+        given = TArr(symarr('G', A + B))
+        nd = node(f.arr, func=f, var=own, derivative=given)
+        nd.var_ = own
+        nd.var = own
+        nd.true_override = given.arr  # by definition of WithDerivative
+        return nd, [f], B
+    S.append(Scenario('WithDerivative', 'own-target', withder_same))
+
+    def withder_other(A=(2,), B=(3,)):
+        f = child('f', A, B)
+        own = Target(B, FLOAT, 'own')
+        given = TArr(symarr('G', A + B))
+        nd = node(f.arr, func=f, var=own, derivative=given)
+        nd.var = Target(B, FLOAT, 'other')
+        return nd, [f], B
+    S.append(Scenario('WithDerivative', 'other-target', withder_other))
+
+    def default_int(A=(2,), B=(2,)):
+        nd = node(symarr('n', A), dtype=INT)
+        nd.true_override = zobj(A + B)
+        return nd, [], B
+    S.append(Scenario('Array', 'integer-node', default_int))
+
+    def default_indep(A=(2,), B=(2,)):
+        nd = node(symarr('c', A))
+        nd.extras['arguments'] = frozenset()
+        nd.true_override = zobj(A + B)
+        return nd, [], B
+    S.append(Scenario('Array', 'independent-of-target', default_indep))
+
+    def default_dep(A=(2,), B=(2,)):
+        nd = node(symarr('c', A))
+        return nd, [], B
+    S.append(Scenario('Array', 'depends-on-target', default_dep, expect_raise='NotImplementedError'))
+
+    def choose(A=(2, 2), B=(2,)):
+        ch = child('c', A + (3,), B)
+        idx = numpy.array([[2, 0], [1, 1]])
+        val = numpy.empty(A, dtype=object)
+        for pos in itertools.product(*map(range, A)):
+            val[pos] = ch.arr[pos + (int(idx[pos]),)]
+        index = carr_as_tarr(CArr(idx), INT)
+        return node(val, index=index, choices=ch), [ch], B
+    S.append(Scenario('Choose', 'A2x2_B2', choose))
+
+    def guard(A=(2,), B=(2,)):
+        f = child('f', A, B)
+        return node(f.arr, fun=f), [f], B
+    S.append(Scenario('Guard', 'A2_B2', guard))
     return S
 
 
@@ -743,18 +872,21 @@ class DerivRule(Contract):
 
     def __init__(self, sc):
         self.sc = sc
-        self.fn = 'evaluable:%s._derivative' % sc.cls
+        self.fn = sc.fn
         self.label = sc.label
+        self.expect_return = sc.expect_raise is None
 
     def setup(self, cx):
         nd, children, vshape = self.sc.build()
-        var = Target(vshape)
+        var = getattr(nd, 'var', None) or Target(vshape)
         S = State(args=(nd, var, {}), node=nd, children=children, vshape=tuple(vshape), var=var, globals=dict(GLOBALS))
         nd.extras.setdefault('arguments', frozenset([var]))
         nd.extras.setdefault('shape', tuple(int(n) for n in nd.arr.shape))
         return S
 
     def ensures(self, cx, S, result):
+        if self.sc.expect_raise is not None:
+            return [('must-raise-' + self.sc.expect_raise, z3.BoolVal(False))]
         if not isinstance(result, TArr):
             raise Unsupported('_derivative returned %r' % (result,))
         want = getattr(S.node, 'true_override', None)
@@ -797,12 +929,71 @@ class DerivRule(Contract):
         return out
 
     def raises(self, cx, S, e):
-        return False
+        return self.sc.expect_raise is not None and e.exc.split(':')[0] == self.sc.expect_raise
 
     def replay(self, ob):
         model = {k: str(v) for k, v in (ob.model or {}).items() if '[' in k}
         return ("import sys; sys.path.insert(0, %r)\nfrom native import c04b\nc04b.check(%r, %r, %s)\n" % (HERE, self.sc.cls, self.sc.label, json.dumps(model)))
 
 
+class Driver(Contract):
+    """evaluable.derivative(func, var, seen): the driver.  (zero) an integer/bool target or a target the function does not depend on
+    gives zeros of shape func.shape + var.shape WITHOUT consulting the rule; (memo) otherwise the rule of `func` is consulted at most
+    once per (func, seen): a second request with the same memo returns the SAME object; the result is what the rule returned;
+    (shape) a rule result whose shape is not func.shape + var.shape, or whose dtype differs, is rejected by the assertion, never returned."""
+    prop = PROP
+    fn = 'evaluable:derivative'
+    bounded = 'func of shape (2,), target of shape (3,); entries symbolic'
+
+    def __init__(self, scenario):
+        self.scenario = scenario
+        self.label = scenario
+        self.expect_return = scenario != 'rule-returns-wrong-shape'
+
+    def setup(self, cx):
+        A, B = (2,), (3,)
+        sc = self.scenario
+        var = Target(B, INT if sc == 'integer-target' else FLOAT, 'v')
+        good = TArr(symarr('J', A + B))
+        bad = TArr(symarr('J', B + A))
+        calls = []
+
+        def rule(ctx, selfobj, v, seen):
+            calls.append((v, seen))
+            return bad if sc == 'rule-returns-wrong-shape' else good
+        f = TArr(symarr('f', A), FLOAT, extras={'arguments': frozenset() if sc == 'independent' else frozenset([var])}, clsnames=('Array',))
+        f.extras['_derivative'] = BoundMethod(f, rule, '_derivative')
+        S = State(f=f, var=var, good=good, calls=calls, globals=dict(GLOBALS), A=A, B=B)
+        S.globals['DerivativeTargetBase'] = ClassRef('DerivativeTargetBase')
+        return S
+
+    def body(self, cx, S, call):
+        if self.scenario == 'memo':
+            seen = {}
+            r1 = call(self.fn, S.f, S.var, seen)
+            r2 = call(self.fn, S.f, S.var, seen)
+            return (r1, r2)
+        return call(self.fn, S.f, S.var)
+
+    def ensures(self, cx, S, result):
+        B = z3.BoolVal
+        sc = self.scenario
+        if sc == 'rule-returns-wrong-shape':
+            return [('wrong-shape-is-rejected', B(False))]
+        if sc in ('integer-target', 'independent'):
+            ok = isinstance(result, TArr) and result.arr.shape == S.A + S.B and all(x == 0 for x in result.arr.flat)
+            return [('zeros-of-shape-func+target', B(bool(ok))), ('rule-not-consulted', B(not S.calls))]
+        if sc == 'memo':
+            r1, r2 = result
+            return [('returns-what-the-rule-returned', B(r1 is S.good)), ('second-request-returns-the-same-object', B(r2 is r1)), ('rule-consulted-once', B(len(S.calls) == 1))]
+        return [('returns-what-the-rule-returned', B(result is S.good)), ('rule-consulted-once-with-the-target', B(len(S.calls) == 1 and S.calls[0][0] is S.var))]
+
+    def raises(self, cx, S, e):
+        return self.scenario == 'rule-returns-wrong-shape' and e.exc.split(':')[0] == 'AssertionError'
+
+    def replay(self, ob):
+        return ("import sys; sys.path.insert(0, %r)\nfrom native import c04b\nc04b.driver(%r)\n" % (HERE, self.scenario))
+
+
 def contracts():
-    return [DerivRule(sc) for sc in scenarios() + pointwise_scenarios()]
+    return [DerivRule(sc) for sc in scenarios() + pointwise_scenarios()] + [Driver(s) for s in ('plain', 'memo', 'integer-target', 'independent', 'rule-returns-wrong-shape')]
